@@ -2,6 +2,7 @@ package props
 
 import (
 	"fmt"
+	"go/token"
 	"go/types"
 	"sort"
 	"strings"
@@ -326,6 +327,8 @@ func runC05(p *core.Prog, r *core.Report) {
 			r.Check(ok, "C05.R3", fmt.Sprintf("NextJob/pending#%d", i+1), "only a unit whose state was just tested == Pending is marked Scheduled", "no dominating Pending test on the same unit", p.Pos(s.Pos()))
 		}
 	})
+
+	r.Guard("C05.R3", "dependenciesCompleted", "dependency table", func() { checkDependencyTable(p, r) })
 
 	// ------------------------------------------------------------------ R4
 	r.Guard("C05.R4", "CmdTryMerge", "merge guards", func() {
@@ -710,4 +713,133 @@ func checkSchedulerUpdate(p *core.Prog, r *core.Report, rule string) {
 		})
 	}
 	r.Check(okQ, rule, "loop.Quit", "loop.Quit wraps the error into the message that ends Run", "QuitMsg not built", p.Pos(qf.Pos()))
+}
+
+// checkDependencyTable (C05.R3): per state of a lower stage of the same
+// segment, dependenciesCompleted accepts, accepts only if the previous
+// segment's parent stage is complete, or rejects.
+func checkDependencyTable(p *core.Prog, r *core.Report) {
+	fn := p.Func(pkgStage, "Stages.dependenciesCompleted")
+	r.Touch(core.FuncName(fn))
+	getState := p.FuncObj(pkgStage, "Stages.getState")
+	stT := p.Named(pkgStage, "UnitState")
+	names := map[string]string{}
+	for _, c := range core.EnumConsts(stT) {
+		names[c.Val().ExactString()] = strings.TrimPrefix(c.Name(), "Unit")
+	}
+	loops := core.Loops(fn)
+	if len(loops) != 1 {
+		core.Undecide("dependenciesCompleted: expected one loop over the lower stages, found %d", len(loops))
+	}
+	l := loops[0]
+	var stateCall, prevCall *ssa.Call
+	core.Instrs(fn, func(in ssa.Instruction) {
+		c, ok := in.(*ssa.Call)
+		if !ok || core.CommonCallee(c.Common()) != getState {
+			return
+		}
+		if l.Body[c.Block()] {
+			stateCall = c
+		} else {
+			prevCall = c
+		}
+	})
+	if stateCall == nil || prevCall == nil {
+		core.Undecide("dependenciesCompleted: state reads not found")
+	}
+	header := l.Header.Instrs[0]
+	isRetFalse := func(in ssa.Instruction) bool {
+		ret, ok := in.(*ssa.Return)
+		if !ok || len(ret.Results) != 1 {
+			return false
+		}
+		k, ok := ret.Results[0].(*ssa.Const)
+		return ok && k.Value != nil && k.Value.ExactString() == "false"
+	}
+	// edges on which the previous segment's parent is Completed / NoOp
+	var prevOK []core.Edge
+	core.Instrs(fn, func(in ssa.Instruction) {
+		ifi, ok := in.(*ssa.If)
+		if !ok {
+			return
+		}
+		onT, onF, ok := core.CondRelation(ifi.Cond, func(v ssa.Value) bool { return v == ssa.Value(prevCall) }, func(v ssa.Value) bool {
+			k, ok := v.(*ssa.Const)
+			return ok && k.Value != nil && (names[k.Value.ExactString()] == "Completed" || names[k.Value.ExactString()] == "NoOp")
+		})
+		if !ok {
+			return
+		}
+		if onT == core.OrdEQ {
+			prevOK = append(prevOK, core.Edge{From: ifi.Block(), Idx: 0})
+		} else if onF == core.OrdEQ {
+			prevOK = append(prevOK, core.Edge{From: ifi.Block(), Idx: 1})
+		}
+	})
+	classify := func(start *ssa.BasicBlock) string {
+		first := start.Instrs[0]
+		toHeader, toFalse := false, false
+		if first == header {
+			toHeader = true
+		} else if isRetFalse(first) {
+			toFalse = true
+		} else {
+			q := core.PathQuery{Fn: fn, CutInstr: func(x ssa.Instruction) bool { return x == header || isRetFalse(x) }}
+			_, toHeader = q.CanReach(first, func(x ssa.Instruction) bool { return x == header })
+			_, toFalse = q.CanReach(first, isRetFalse)
+		}
+		switch {
+		case toHeader && !toFalse:
+			return "accept"
+		case !toHeader && toFalse:
+			return "reject"
+		case toHeader && toFalse:
+			// continuing requires the previous segment's parent to be complete
+			q := core.PathQuery{Fn: fn, CutEdge: func(e core.Edge) bool { return containsEdge(prevOK, e) }, CutInstr: func(x ssa.Instruction) bool { return isRetFalse(x) }}
+			if _, reach := q.CanReach(first, func(x ssa.Instruction) bool { return x == header }); !reach && len(prevOK) > 0 {
+				return "needs-previous-segment-parent-complete"
+			}
+			return "conditional-on-something-else"
+		}
+		return "?"
+	}
+	got := map[string]string{}
+	var defBlock *ssa.BasicBlock
+	core.Instrs(fn, func(in ssa.Instruction) {
+		ifi, ok := in.(*ssa.If)
+		if !ok || !l.Body[ifi.Block()] {
+			return
+		}
+		bo, ok := ifi.Cond.(*ssa.BinOp)
+		if !ok || bo.Op != token.EQL || bo.X != ssa.Value(stateCall) {
+			return
+		}
+		k, ok := bo.Y.(*ssa.Const)
+		if !ok {
+			return
+		}
+		got[names[k.Value.ExactString()]] = classify(ifi.Block().Succs[0])
+		defBlock = ifi.Block().Succs[1]
+	})
+	if defBlock != nil {
+		got["other"] = classify(defBlock)
+	}
+	want := map[string]string{"Completed": "accept", "NoOp": "accept", "Shadowed": "needs-previous-segment-parent-complete", "PartialPresent": "needs-previous-segment-parent-complete", "other": "reject"}
+	var ks []string
+	for k := range want {
+		ks = append(ks, k)
+	}
+	for k := range got {
+		if _, ok := want[k]; !ok {
+			ks = append(ks, k)
+		}
+	}
+	sort.Strings(ks)
+	for _, k := range ks {
+		w, ok := want[k]
+		if !ok {
+			w = "reject"
+		}
+		r.Check(got[k] == w, "C05.R3", "dependenciesCompleted/"+k, fmt.Sprintf("a lower stage of the same segment in state %s: %s", k, w), "classified as "+got[k], p.Pos(fn.Pos()))
+	}
 }
